@@ -247,8 +247,10 @@ def problems(env, cfg, tier):
             # C04
             "C04.mask_is_exactly_the_legal_moves": o.action_mask == L2,
             "C04.cached_mask_is_the_mask": s2.action_mask == L2,
-            "C04.legal_move_not_treated_as_invalid": ~ok | (~ts.extras["invalid_action"] & jnp.any(chosen & s2.items_placed)
-                                                           & (last == ~jnp.any(L2))),
+            "C04.legal_move_not_treated_as_invalid": ~ok | ~ts.extras["invalid_action"],
+            "C04.legal_move_is_executed": ~ok | ~chosen | s2.items_placed,
+            # (the new cached mask IS the rule on the new state, element-wise, by C04.cached_mask_is_the_mask: `any` is taken over it)
+            "C04.legal_move_ends_episode_iff_no_legal_move_is_left": ~ok | (last == ~jnp.any(s2.action_mask)),
             "C04.illegal_move_is_treated_as_invalid": ok | (ts.extras["invalid_action"] & last),
             # C05 (terminate on invalid, state untouched)
             "C05.illegal_is_last": ok | last,
@@ -260,8 +262,8 @@ def problems(env, cfg, tier):
             "C11.variant_decreases": last | (num_unplaced(s2) < num_unplaced(s)),
             "C11.variant_decreases_by_one_on_legal_steps": ~ok | (num_unplaced(s2) == num_unplaced(s) - 1),
             "C11.variant_bounded": (num_unplaced(s) >= 1) & (num_unplaced(s) <= I),
-            "C11.never_earlier": ~last | ~ok | ~jnp.any(L2),
-            "C11.never_later": last | jnp.any(L2),
+            "C11.never_earlier": ~last | ~ok | ~jnp.any(s2.action_mask),  # s2.action_mask == legal(s2): C04.cached_mask_is_the_mask
+            "C11.never_later": last | jnp.any(s2.action_mask),
             "canary.no_item_is_ever_packed": (s2.items_placed == s.items_placed).all(),
         }
         if dense:
